@@ -264,7 +264,7 @@ package f3
 //@     before[supplemental_data_commits_to_the_next_committee] arg(0) == res(GetCommittee, 1, 0).PowerTable.Entries && res(GetCommittee, 1, 1) == nil
 
 //@ func (*gpbftInputs).GetCommittee
-//@   property C15
+//@   property C15 C01 C02 C03
 //@   requires storeInv(h.certStore)
 //@   modifies auto
 //@   maypanic
@@ -283,6 +283,8 @@ package f3
 //@     before[only_inside_the_lookback_window] h.manifest.InitialInstance + h.manifest.CommitteeLookback <= 18446744073709551615 ==> instance < h.manifest.InitialInstance + h.manifest.CommitteeLookback
 //@   at Add 1
 //@     before[committee_table_is_built_from_those_entries] arg(1) == powerEntries
+//@   at Aggregate 1
+//@     before[the_aggregate_verifier_is_over_the_keys_of_the_tables_own_canonical_order] recv() == h.verifier && arg(0) == res(PublicKeys, 1) && argOf(PublicKeys, 1, 0) == table.Entries && dominatedBy(Add, 1) && res(Add, 1) == nil
 
 // C03: the decision is turned into a certificate with the delta between this instance's and the next instance's
 // tables, and is stored only after that very certificate passed certificate validation against this instance's table.
